@@ -531,7 +531,7 @@ func genPow5(t *rapid.T) string {
 func genEdges(t *rapid.T) string {
 	base := rapid.SampledFrom([]string{
 		"1.797693134862315708145274237317043567981e308", // MaxFloat64
-		"1.797693134862315807e308",                        // overflow midpoint region
+		"1.797693134862315807e308",                      // overflow midpoint region
 		"1.7976931348623158e308", "1.7976931348623159e308", "1.797693134862315808e308",
 		"179769313486231580793728971405303415079934132710037826936173778980444968292764750946649017977587207096330286416692887910946555547851940402630657488671505820681908902000708383676273854845817711531764475730270069855571366959622842914819860834936475292719074168444365510704342711559699508093042880177904174497791.9999999999",
 		"179769313486231580793728971405303415079934132710037826936173778980444968292764750946649017977587207096330286416692887910946555547851940402630657488671505820681908902000708383676273854845817711531764475730270069855571366959622842914819860834936475292719074168444365510704342711559699508093042880177904174497792",
